@@ -40,6 +40,120 @@ class Ctx:
         if not keep:
             shutil.rmtree(os.path.join(WORK, 'replay'), ignore_errors=True)
 
+    # ------------------------------------------------------------------ engine M
+    def mir(self, tag='whirlpool', **kw):
+        from . import mirsmt as M
+        if not hasattr(self, '_mir'): self._mir = {}
+        if tag not in self._mir:
+            t0 = time.time()
+            path = M.dump_mir(tag, **kw)
+            self._mir[tag] = M.Mir(path)
+            self.extra.setdefault('mir', {})[tag] = {'sha1': self._mir[tag].sha, 'functions': len(self._mir[tag].fns),
+                                                      'dump_s': round(time.time() - t0, 1)}
+            try: os.remove(path)
+            except OSError: pass
+        return self._mir[tag]
+
+    def parallel(self, tasks, max_procs=None):
+        """run task(child_ctx) callables in forked worker processes and merge their bookkeeping"""
+        import multiprocessing as mp
+        mpc = mp.get_context('fork')
+        tasks = [(n, f) for n, f in tasks if self.only is None or True]
+        max_procs = max_procs or min(len(tasks), self.jobs)
+        per = max(1, self.jobs // max(1, min(len(tasks), max_procs)))
+        running, pending, results = [], list(tasks), {}
+
+        def worker(name, fn, conn):
+            child = Ctx(self.pid, self.tier, self.seed, per, self.only.pattern if self.only else None)
+            child.logdir = os.path.join(self.logdir, re.sub(r'[^\w.-]', '_', name))
+            os.makedirs(child.logdir, exist_ok=True)
+            child._mir = getattr(self, '_mir', {})
+            err = None
+            try:
+                fn(child)
+            except Fault as e:
+                err = 'FAULT:' + str(e)
+            except Exception:
+                import traceback
+                err = traceback.format_exc()
+            conn.send(dict(obligations=child.obligations, functions=child.functions, stubs=child.stubs, bounds=child.bounds,
+                           solver_time=child.solver_time, queries=child.queries, extra=child.extra, err=err,
+                           assumptions=child.assumptions))
+            conn.close()
+
+        while pending or running:
+            while pending and len(running) < max_procs:
+                n, f = pending.pop(0)
+                pc, cc = mpc.Pipe(duplex=False)
+                pr = mpc.Process(target=worker, args=(n, f, cc))
+                pr.start(); cc.close()
+                running.append((n, pr, pc))
+            still = []
+            for n, pr, pc in running:
+                if pc.poll(0.2):
+                    try: results[n] = pc.recv()
+                    except EOFError: results[n] = dict(err='worker died', obligations=[])
+                    pr.join()
+                elif not pr.is_alive():
+                    results[n] = dict(err=f'worker exited with {pr.exitcode}', obligations=[])
+                else:
+                    still.append((n, pr, pc))
+            running = still
+        for n, _ in tasks:
+            r = results.get(n, dict(err='no result', obligations=[]))
+            self.obligations += r.get('obligations', [])
+            self.functions |= r.get('functions', set()); self.stubs |= r.get('stubs', set())
+            self.bounds += r.get('bounds', []); self.solver_time += r.get('solver_time', 0); self.queries += r.get('queries', 0)
+            self.assumptions += [a for a in r.get('assumptions', []) if a not in self.assumptions]
+            if r.get('extra'): self.extra.setdefault('tasks', {})[n] = r['extra']
+            if r.get('err'):
+                if r['err'].startswith('FAULT:'): raise Fault(f'{n}: ' + r['err'][6:])
+                raise Fault(f'task {n} failed: ' + r['err'][-1500:])
+
+    def cap(self, quick=60, thorough=600):
+        return quick if self.tier == 'quick' else thorough
+
+    def discharge(self, obls, cap=None, prefix='M'):
+        """solver verdicts for a list of mirsmt.Obligation; sat models are replayed natively"""
+        from . import mirsmt as M
+        obls = [o for o in obls if self.want(o.key)]
+        if not obls: return
+        cap = cap or self.cap()
+        M.discharge(obls, cap, self.jobs, os.path.join(self.logdir, 'smt'))
+        for o in obls:
+            self.queries += 1
+            self.solver_time += o.time
+            key = f'{prefix}:{o.key}'
+            sample = {'obligation': o.key, 'note': o.note, 'goal': self._short(o), 'verdict': o.verdict, 'time_s': round(o.time, 2)}
+            if o.verdict == 'unsat':
+                self.add(key, 'M', 'discharged', o.time, '', getattr(o, 'nontrivial', True), sample)
+            elif o.verdict == 'unknown':
+                self.add(key, 'M', 'undecided', o.time, f'solver gave no verdict within {cap}s', True, sample)
+            else:
+                self._confirm_m(o, key, sample)
+
+    @staticmethod
+    def _short(o):
+        from . import term as T
+        g = T.smt(o.goal)
+        return g if len(g) < 400 else g[:400] + '...'
+
+    def _confirm_m(self, o, key, sample):
+        from . import replay_m
+        rdir = os.path.join(VERIF, 'replays', self.pid)
+        os.makedirs(rdir, exist_ok=True)
+        rp = os.path.join(rdir, re.sub(r'[^\w.-]', '_', o.key)[:120] + '.json')
+        rec = {'property': self.pid, 'obligation': o.key, 'model': {k: v for k, v in (o.model or {}).items()}, 'smt2': getattr(o, 'file', None)}
+        verdict, info = replay_m.replay(o, os.path.join(self.logdir, 'mreplay.log'))
+        rec['native'] = info
+        json.dump(rec, open(rp, 'w'), indent=1, default=str)
+        if verdict == 'violates':
+            self.add(key, 'M', 'violated', o.time, f'solver model reproduced on the real function: {info}', True, sample, rp)
+        elif verdict == 'holds':
+            self.add(key, 'M', 'fault', o.time, f'solver model does not reproduce natively (encoding wrong?): {info}', True, sample, rp)
+        else:
+            self.add(key, 'M', 'fault', o.time, f'sat, but no native replay available for this obligation: {info}', True, sample, rp)
+
     # ------------------------------------------------------------------ engine K
     def run_kani(self, files):
         hs = [h for h in K.parse_harnesses(files) if h.prop in (None, self.pid)]
